@@ -288,6 +288,13 @@ func NewEvaluator(p *Program, cfg EvalConfig) *Evaluator {
 	return &Evaluator{P: p, TS: NewTerms(), Cfg: cfg}
 }
 
+// nonNilResults: external constructors whose (first) result is never nil.
+var nonNilResults = map[string]bool{
+	"time.NewTimer": true, "time.AfterFunc": true, "time.NewTicker": true, "context.WithCancel": true, "context.WithCancelCause": true,
+	"context.WithTimeout": true, "context.WithDeadline": true, "context.Background": true, "context.TODO": true,
+	"errors.New": true, "fmt.Errorf": true, "bytes.NewReader": true, "io.NopCloser": true,
+}
+
 // ---- default purity ----------------------------------------------------------------------------------
 
 var pureNames = map[string]bool{
@@ -500,6 +507,41 @@ func (ev *Evaluator) LoadField(st *State, ptr *T, fields ...string) *T {
 				for j := 0; j < s.NumFields(); j++ {
 					if s.Field(j).Name() == want {
 						idx = j
+					}
+				}
+				if idx < 0 {
+					// promoted field of an embedded struct (by value or by pointer)
+					for j := 0; j < s.NumFields() && idx < 0; j++ {
+						if !s.Field(j).Embedded() {
+							continue
+						}
+						et := s.Field(j).Type()
+						if pt, isP := et.Underlying().(*types.Pointer); isP {
+							et = pt.Elem()
+						}
+						es, isS := et.Underlying().(*types.Struct)
+						if !isS {
+							continue
+						}
+						for k := 0; k < es.NumFields(); k++ {
+							if es.Field(k).Name() == want {
+								sub := ev.LoadField(st, cur, s.Field(j).Name())
+								if sub == nil {
+									continue
+								}
+								if sub.Typ == nil {
+									sub.Typ = s.Field(j).Type()
+								}
+								rest := append([]string{f}, fields[i+1:]...)
+								if _, isP := s.Field(j).Type().Underlying().(*types.Pointer); !isP {
+									// embedded by value: address arithmetic on the embedded struct's address
+									addr2 := ev.faddr(cur, stt, j)
+									addr2.Typ = types.NewPointer(s.Field(j).Type())
+									return ev.LoadField(st, addr2, rest...)
+								}
+								return ev.LoadField(st, sub, rest...)
+							}
+						}
 					}
 				}
 			}
@@ -1113,7 +1155,7 @@ func (ev *Evaluator) callEvent(st *State, fr *Frame, c *ssa.CallCommon, instr ss
 	case *ssa.Function:
 		e.Fn = origin(v)
 		e.Callee = qualName(v)
-		e.Method = origin(v).Name()
+		e.Method = canonName(v)
 		if v.Signature.Recv() != nil && len(e.Args) > 0 {
 			e.Recv = e.Args[0]
 			e.Args = e.Args[1:]
@@ -1157,7 +1199,7 @@ func (ev *Evaluator) doCall(st *State, fr *Frame, c *ssa.CallCommon, instr ssa.I
 		} else if f, ok := c.Value.(*ssa.Function); ok {
 			e.Fn = origin(f)
 			e.Callee = qualName(f)
-			e.Method = f.Name()
+			e.Method = canonName(f)
 			e.FnTerm = nil
 		} else if b, ok := c.Value.(*ssa.Builtin); ok {
 			e.Callee = "builtin:" + b.Name()
@@ -1233,6 +1275,7 @@ func (ev *Evaluator) doCall(st *State, fr *Frame, c *ssa.CallCommon, instr ssa.I
 			callee = origin(f)
 			e.Fn = callee
 			e.Callee = qualName(callee)
+			e.Method = canonName(callee)
 			if nr != nil {
 				e.Recv = nr
 			}
@@ -1251,7 +1294,7 @@ func (ev *Evaluator) doCall(st *State, fr *Frame, c *ssa.CallCommon, instr ssa.I
 			inline = ev.Cfg.Inline(callee, depth)
 		}
 		if !inline && !ev.Cfg.NoSamePkgInline && !c.IsInvoke() && e.FnTerm == nil && callee.Parent() == nil && callee.Pkg != nil && callee.Pkg == ev.rootPkg && ev.P.InScope[callee] &&
-			!protocolNames[callee.Name()] && !ev.Cfg.Opaque[callee.Name()] {
+			!protocolNames[canonName(callee)] && !ev.Cfg.Opaque[canonName(callee)] {
 			inline = true
 		}
 		// no recursion
@@ -1303,8 +1346,12 @@ func (ev *Evaluator) doCall(st *State, fr *Frame, c *ssa.CallCommon, instr ssa.I
 		ev.emit(st, e)
 	} else {
 		ev.emit(st, e)
-		for _, rt := range rtypes {
-			e.Res = append(e.Res, ev.fresh(st, "res", rt, instr))
+		for i, rt := range rtypes {
+			r := ev.fresh(st, "res", rt, instr)
+			if nonNilResults[e.Callee] && i == 0 {
+				st.Facts.nils[r] = false
+			}
+			e.Res = append(e.Res, r)
 		}
 		if callee != nil && ev.Cfg.MayWrite != nil {
 			ev.havoc(st, ev.Cfg.MayWrite(callee))
